@@ -105,7 +105,9 @@ WORDS = ["roads", "Layer 1", "my_layer", "a b c", "x", "Ünïcödé", "日本語
          # backslashes are content; a quote character directly behind one is an escaped quote
          "C:\\data\\x.tif", 'say \\"hi\\"', "it\\'s", "a\\\\b", 'C:\\\\maps\\\\\\"new roads\\"', "x\\n", "\\\\'q\\'", 'say "x" it\\\'s', "Napol'i", 'he said "i',
          # the word include inside a value, Unicode line separators and a form feed inside a value
-         "wms_include_items", "please include me", "/srv/data/*.tif", "a/*b", "^[a-z/*]+$", "sep\u2028here", "nel\u0085x", "ff\x0chere", "vt\x0bx"]
+         "wms_include_items", "please include me", "/srv/data/*.tif", "a/*b", "^[a-z/*]+$", "sep\u2028here", "nel\u0085x", "ff\x0chere", "vt\x0bx",
+         # text that is not in a Unicode normal form (decomposed accents, a composition exclusion, compatibility characters): content
+         "cafe\u0301 de\u0301compose\u0301", "\u0958a", "\u212bngstro\u0308m", "\ufb01ne \u2460"]
 SAFE_BARE = ["roads", "my_layer", "x1", "Foo", "bar_2", "_u", "ABC", "lakes", "3D", "2ND", "1ST_FLOOR", "4X4", "7up", "9_a", "2d_buildings",
              "fonts.txt", "../etc/symbols.sym", "./data/shp", "data/roads.shp", "my-fonts/list.txt", "a.b.c",
              "caf\u00e9", "\u00dcn\u00efc\u00f6d\u00e9", "na\u00efve", "\u00c9cole_2", "stra\u00dfe"]
